@@ -201,9 +201,20 @@ fn seg_cases<W: Write>(out: &mut W, rng: &mut Rng, n: usize) {
     for i in 0..n {
         // reserved fields: all zero, one non-zero byte at each position, random
         let mut b3 = vec![0u8; 3];
-        match i % 5 {
+        let x = 1 + rng.below(255) as u8;
+        let y = 1 + rng.below(255) as u8;
+        match i % 12 {
             0 => {}
-            1 | 2 | 3 => b3[i % 5 - 1] = 1 + rng.below(255) as u8,
+            1 | 2 | 3 => b3[i % 12 - 1] = x,
+            // several non-zero bytes that cancel under a folding operator: equal pairs and x, y, x^y (xor), x and its
+            // two's complement (wrapping sum), disjoint bit sets (and), 0xff pairs
+            4 => b3 = vec![x, x, 0],
+            5 => b3 = vec![0, x, x],
+            6 => b3 = vec![x, 0, x],
+            7 => b3 = vec![x, y, x ^ y],
+            8 => b3 = vec![x, x.wrapping_neg(), 0],
+            9 => b3 = vec![x, y, (x.wrapping_add(y)).wrapping_neg()],
+            10 => b3 = vec![0x0f, 0xf0, 0],
             _ => b3 = rng.bytes(3),
         }
         seg_case::<Reserved<3>, W>(out, "reserved3", &b3);
@@ -305,6 +316,17 @@ pub fn run<W: Write>(opts: &Opts, out: &mut W) {
             for v in [1u8, 0x7f, 0x80, 0xff] {
                 let mut bytes = vec![0u8; len];
                 bytes[i] = v;
+                dispatch(out, name, &bytes);
+            }
+        }
+        // VP8X: reserved bytes that are not zero but cancel under a folding operator, everything else valid
+        if name == "Vp8xChunk" && len == 10 {
+            for r in [[1u8, 1, 0], [0, 0x80, 0x80], [5, 3, 6], [0xff, 0x0f, 0xf0], [1, 0xff, 0], [0x0f, 0xf0, 0], [7, 7, 7], [2, 0xfe, 0]] {
+                let mut bytes = vec![0u8; len];
+                bytes[1..4].copy_from_slice(&r);
+                dispatch(out, name, &bytes);
+                bytes[0] = 0x10;
+                bytes[4] = 9;
                 dispatch(out, name, &bytes);
             }
         }
